@@ -71,6 +71,14 @@ pub fn discards(mut w: impl Write) {
 	let _ = w.flush().or(Ok::<(), std::io::Error>(()));
 }
 
+/// R04.9 positive control: errors filtered out of a fallible iterator (a source that keeps failing never ends).
+pub fn skip_errors(r: impl std::io::BufRead) -> usize {
+	let a = r.lines().filter_map(Result::ok).count();
+	let v: Vec<Result<u8, ()>> = vec![Ok(1), Err(())];
+	let b = v.into_iter().flatten().count();
+	a + b
+}
+
 /// R12.5 positive control: single-attempt writes.
 pub fn bare_writes(mut w: impl Write) -> std::io::Result<usize> {
 	let a = w.write(b"x")?;
